@@ -81,6 +81,7 @@ type Req struct {
 	Subs        []*GPath `json:"subs,omitempty"`
 	HasSubs     []bool   `json:"hs,omitempty"` // false: Subscription entry without a path
 	Peer        bool     `json:"peer"`
+	Stats       bool     `json:"stats,omitempty"`
 	Targets     []string `json:"targets,omitempty"`
 }
 
@@ -100,6 +101,7 @@ type Case struct {
 	QT      string      `json:"qt,omitempty"` // once poll stream
 	DT      string      `json:"dt,omitempty"` // group single proto bogus
 	TS      bool        `json:"with_ts,omitempty"`
+	NoEvent bool        `json:"no_event_driven,omitempty"` // ingest: cache.DisableEventDrivenEmulation()
 	Ops     []Op        `json:"ops"`
 	Obs     interface{} `json:"obs,omitempty"`
 }
